@@ -10,7 +10,7 @@ EXPLANATION = (
     '.ifdef/.ifndef and the skip/assemble order around .else are the documented ones. T-SIB(c): the skip loop counts '
     'exactly the openers the directive parser opens. ELSE-GUARD: stray .else/.endif are errors. R-ERR1/R-ERR2: every error '
     'result of parse_if/parse_ifdef/ifdef_ignore/nested assemble()/the condition evaluator is propagated. Not decided: '
-    'branch selection for arbitrary nesting.')
+    'branch selection for arbitrary nesting. NOT-APPLY: every completion of an operand in the condition evaluator passes the test that applies a pending `!`.')
 
 
 def run(tier, t0):
@@ -19,6 +19,6 @@ def run(tier, t0):
 
     def scope(fn):
         return fn.file in ('core/directives_if.cpp', 'core/ifdef_expression.cpp') or fn.q == 'parse_directives'
-    results = [cond.ifop(prog), cond.openers(prog), cond.ifdef_table(prog), cond.else_guard(prog), cond.ifdef_raw(prog), cond.tok_op(prog), cond.ret_store(prog), cond.endif_protocol(prog),
+    results = [cond.ifop(prog), cond.openers(prog), cond.ifdef_table(prog), cond.else_guard(prog), cond.ifdef_raw(prog), cond.tok_op(prog), cond.ret_store(prog), cond.endif_protocol(prog), cond.not_apply(prog),
                err.err1(prog, scope, table, floor=8), err.err2(prog, scope, table, floor=10)]
     return report.finish('C10', tier, results, EXPLANATION, [], common.TRUSTED, t0)
